@@ -2,3 +2,4 @@ pub mod dir;
 pub mod repl;
 pub mod auth;
 pub mod tokens;
+pub mod reset;
